@@ -162,12 +162,13 @@ class Check:
         return os.path.join(CACHE, "repo-target", profile, "naija")
 
     def gen_tables(self):
-        """Regenerate lean/NaijaVerif/Gen/*.lean from /repo's current sources."""
+        """Regenerate lean/NaijaVerif/Gen/*.lean from /repo's current sources. Extractor problems are
+        remembered and become broken obligations of exactly those properties whose Lean modules
+        import the table concerned (see lean_obligations)."""
         sys.path.insert(0, os.path.join(VERIF, "extract"))
         import gen_tables
         problems = gen_tables.generate(self.nvh(), REPO, os.path.join(LEAN, "NaijaVerif", "Gen"))
-        for pr in problems:
-            self.broken.append({"kind": "extractor-broken", "what": pr})
+        self._extractor_problems = problems
         return problems
 
     def lake_build(self, targets):
@@ -223,16 +224,21 @@ class Check:
                 self.broken.append({"kind": "proof-obligation-failed", "module": mod,
                                     "theorems": sorted(b for b in bad if b) or ["<module does not build>"],
                                     "errors": (errs + other)[:8]})
-        # source audit (model, lemma, spec, props files reachable by name convention)
-        for root, _d, files in os.walk(os.path.join(LEAN, "NaijaVerif")):
-            if os.sep + "Driver" in root:
+        # source audit over exactly the files these property modules depend on
+        deps = lean_deps(modules)
+        for path in sorted(deps):
+            if os.sep + "Driver" + os.sep in path:
                 continue
-            for f in files:
-                if f.endswith(".lean"):
-                    src = strip_lean_comments(open(os.path.join(root, f)).read())
-                    m = FORBIDDEN.search(src)
-                    if m:
-                        self.broken.append({"kind": "audit", "what": f"forbidden token {m.group(0)!r} in {f}"})
+            src = strip_lean_comments(open(path).read())
+            m = FORBIDDEN.search(src)
+            if m:
+                self.broken.append({"kind": "audit", "what": f"forbidden token {m.group(0)!r} in {os.path.relpath(path, LEAN)}"})
+        # extractor problems count only where the table is imported (or when unattributable)
+        dep_names = {os.path.basename(p) for p in deps}
+        for pr in getattr(self, "_extractor_problems", []):
+            f = pr.get("file")
+            if f is None or f in dep_names:
+                self.broken.append({"kind": "extractor-broken", "what": pr.get("msg"), "table": f})
         if ok and all_names:
             self._axioms(modules, all_names)
         return ok
@@ -406,6 +412,22 @@ class Check:
               f"disagreements={len(self.disagreements)} oracle_fails={len(self.oracle_fails)} "
               f"violations={len(self.violations)} known={len(self.known_hits)} wall={ev['wall_s']}s", flush=True)
         return 1 if self.violations else 0
+
+
+def lean_deps(modules):
+    """Paths of the project-local Lean files reachable from the given modules through `import`."""
+    seen, todo = set(), list(modules)
+    while todo:
+        m = todo.pop()
+        path = os.path.join(LEAN, m.replace(".", "/") + ".lean")
+        if path in seen or not os.path.exists(path):
+            continue
+        seen.add(path)
+        for line in open(path):
+            mm = re.match(r"\s*(?:public\s+)?import\s+(NaijaVerif\.\S+)", line)
+            if mm:
+                todo.append(mm.group(1))
+    return seen
 
 
 def _errors_of(log):
